@@ -481,8 +481,8 @@ Fixpoint final (w : world) (s : st) (ops : list op) : st :=
    inspect the ClientHello before setting the session manually through SetSessionTicketExtension or SetPSKExtension".
    u_conn.go:225-248: the setters need session support (a ClientSessionCache, tickets not disabled).
    u_session_controller.go:231-240: one session per connection (the controller must be in NoSession). *)
-Record lst := mkL { l_cache : bool; l_set : bool; l_built : bool }.
-Definition linit (w : world) : lst := mkL (w_cache0 w) false false.
+Record lst := mkL { l_cache : bool; l_set : bool; l_built : bool; l_hs : bool }.
+Definition linit (w : world) : lst := mkL (w_cache0 w) false false false.
 
 Definition setter_arg (o : op) : option (option bool) :=   (* None: not a setter; Some None: nil argument; Some (Some i): Initialized = i *)
   match o with
@@ -492,15 +492,27 @@ Definition setter_arg (o : op) : option (option bool) :=   (* None: not a setter
   | _ => None
   end.
 
+(* a call the documentation forbids: a setter without session support, a (non-nil) session extension after
+   BuildHandshakeState/Handshake, a second session *)
+Definition forbidden (w : world) (l : lst) (o : op) : bool :=
+  match setter_arg o with
+  | None => false
+  | Some None => negb (l_cache l) || w_disabled w
+  | Some (Some _) => negb (l_cache l) || w_disabled w || l_built l || l_set l
+  end.
+
+(* Once Handshake has been called only Handshake again is a documented call (it returns the recorded result); the
+   handshake replaces HandshakeState, so building again afterwards is outside the documentation and outside this model. *)
 Definition legal_step (w : world) (l : lst) (o : op) : option lst :=
   match o with
-  | SetCache => Some (mkL true (l_set l) (l_built l))
-  | BuildNoSess => Some l
-  | Build | Handshake => Some (mkL (l_cache l) (l_set l) true)
+  | SetCache => if l_hs l then None else Some (mkL true (l_set l) (l_built l) (l_hs l))
+  | BuildNoSess => if l_hs l then None else Some l
+  | Build => if l_hs l then None else Some (mkL (l_cache l) (l_set l) true (l_hs l))
+  | Handshake => Some (mkL (l_cache l) (l_set l) true true)
   | _ =>
-      if negb (l_cache l) || w_disabled w then None
+      if forbidden w l o then None
       else match setter_arg o with
-           | Some (Some i) => if l_built l || l_set l then None else Some (mkL (l_cache l) i (l_built l))
+           | Some (Some i) => Some (mkL (l_cache l) i (l_built l) (l_hs l))
            | _ => Some l
            end
   end.
